@@ -295,6 +295,13 @@ func c14ValidFilter(b []byte) string {
 	if strings.TrimPrefix(first, "||head-") != strings.TrimPrefix(last, "||tail-") {
 		return "head and tail belong to different versions: " + first + " / " + last
 	}
+	// Every line between them is rule number i of that same version.
+	ver := strings.TrimSuffix(strings.TrimPrefix(first, "||head-"), ".c14.test^")
+	for i, l := range lines[1 : len(lines)-1] {
+		if want := fmt.Sprintf("||r%s-%d.", ver, i); !strings.HasPrefix(l, want) {
+			return fmt.Sprintf("line %d of version %s is %q, expected it to start with %q (mixed or damaged content)", i+2, ver, sysTail(l, 80), want)
+		}
+	}
 
 	return ""
 }
@@ -557,6 +564,12 @@ func TestVerifC14(t *testing.T) {
 	// --- Part 3: write faults (file-size limit on the server process). -----
 	c14WriteFaults(rep, up, ls)
 
+	// --- Part 4: overlapping downloads of one list (traced). ---------------
+	c14Overlap(rep, up, ls, rng)
+
+	// --- Part 5: very large list bodies. -----------------------------------
+	c14Large(rep, up, ls)
+
 	// --- Part 2: SIGKILL campaign (no strace). ----------------------------
 	kills := verifkit.Pick(5, 40)
 	for k := 0; k < kills; k++ {
@@ -736,4 +749,282 @@ func c14WriteFaults(rep *verifkit.Report, up *sysUpstream, ls *sysListServer) {
 	}
 	rep.Event("restart_after_write_faults_ok")
 	in3.Kill()
+}
+
+
+// c14Overlap makes two downloads of the same list overlap in time: a refresh
+// whose transfer trickles in while the list is saved through set_url with
+// another URL (and the other way round, and two set_url calls).  The run is
+// traced, so that the crash-point checker judges every system call; the final
+// file and every snapshot of a concurrent reader must be one complete version.
+func c14Overlap(rep *verifkit.Report, up *sysUpstream, ls *sysListServer, rng *rand.Rand) {
+	dir, err := os.MkdirTemp(os.Getenv("VERIF_SCRATCH"), "agh-c14ov-")
+	if err != nil {
+		rep.Inconcl(err.Error())
+
+		return
+	}
+	defer os.RemoveAll(dir)
+	trace := filepath.Join(os.Getenv("VERIF_SCRATCH"), "c14ov.strace")
+	opts := sysConfOpts{
+		UpstreamPort: up.Port, ExtraTop: c14DHCPConf,
+		Wrapper: []string{"strace", "-f", "-y", "-s", "0", "-o", trace, "-e",
+			"trace=openat,open,creat,rename,renameat,renameat2,write,pwrite64,writev,pwritev,fsync,fdatasync,ftruncate,truncate,unlink,unlinkat,close"},
+	}
+	in := &sysInst{Dir: dir, WebPort: verifkit.FreePort(), done: make(chan struct{})}
+	in.DNSPort = verifkit.FreePort()
+	if err = sysWriteConfig(dir, in.WebPort, in.DNSPort, opts); err != nil {
+		rep.Inconcl(err.Error())
+
+		return
+	}
+	if err = in.launch(os.Getenv("VERIF_AGH_BIN"), opts); err != nil {
+		rep.Inconcl("overlap phase start under strace: " + err.Error())
+
+		return
+	}
+	var stop atomic.Bool
+	var wg sync.WaitGroup
+	wg.Add(1)
+	go c14Reader(rep, dir, &stop, &wg)
+	ok := func(st int, e error) bool { return e == nil && st == 200 }
+	pathA, pathB := "/ov-a.txt", "/ov-b.txt"
+	ls.Set(pathA, c14FilterContent(7000, 300))
+	if st, b, aerr := in.API("POST", "/control/filtering/add_url", map[string]any{"name": "ov", "url": ls.URL(pathA), "whitelist": false}); !ok(st, aerr) {
+		rep.Inconcl(fmt.Sprintf("overlap phase add_url: %d %v %s", st, aerr, b))
+		stop.Store(true)
+		wg.Wait()
+		in.Kill()
+
+		return
+	}
+	cur := pathA
+	rounds := verifkit.Pick(6, 40)
+	for r := 0; r < rounds; r++ {
+		other := pathB
+		if cur == pathB {
+			other = pathA
+		}
+		n1, n2 := 2000+rng.Intn(20000), 2000+rng.Intn(20000)
+		kind := []string{"refresh-then-set_url", "set_url-then-refresh", "set_url-then-set_url"}[r%3]
+		// The first transfer trickles for 300-700 ms; the second starts
+		// 60-200 ms into it and is fast or slow as well.
+		ls.SetSlow(cur, c14FilterContent(7001+r*2, n1), 20, time.Duration(15+rng.Intn(20))*time.Millisecond)
+		if rng.Intn(2) == 0 {
+			ls.Set(other, c14FilterContent(7002+r*2, n2))
+		} else {
+			ls.SetSlow(other, c14FilterContent(7002+r*2, n2), 10, time.Duration(10+rng.Intn(30))*time.Millisecond)
+		}
+		setURL := func(from, to string) (int, error) {
+			st, _, aerr := in.API("POST", "/control/filtering/set_url", map[string]any{"url": ls.URL(from), "whitelist": false,
+				"data": map[string]any{"name": "ov", "url": ls.URL(to), "enabled": true}})
+
+			return st, aerr
+		}
+		refresh := func() (int, error) {
+			st, _, aerr := in.API("POST", "/control/filtering/refresh", map[string]any{"whitelist": false})
+
+			return st, aerr
+		}
+		var first, second func() (int, error)
+		switch kind {
+		case "refresh-then-set_url":
+			first, second = refresh, func() (int, error) { return setURL(cur, other) }
+		case "set_url-then-refresh":
+			// Re-saving with the same URL does not download; move to the
+			// other URL slowly, refresh meanwhile.
+			ls.SetSlow(other, c14FilterContent(7002+r*2, n2), 20, time.Duration(15+rng.Intn(20))*time.Millisecond)
+			first, second = func() (int, error) { return setURL(cur, other) }, refresh
+		default:
+			ls.SetSlow(other, c14FilterContent(7002+r*2, n2), 20, time.Duration(15+rng.Intn(20))*time.Millisecond)
+			first, second = func() (int, error) { return setURL(cur, other) }, func() (int, error) { return setURL(cur, cur) }
+		}
+		var st1, st2 int
+		var e1, e2 error
+		var t1Start, t1End, t2Start, t2End time.Time
+		var cw sync.WaitGroup
+		cw.Add(1)
+		go func() {
+			defer cw.Done()
+			t1Start = time.Now()
+			st1, e1 = first()
+			t1End = time.Now()
+		}()
+		time.Sleep(time.Duration(60+rng.Intn(140)) * time.Millisecond)
+		t2Start = time.Now()
+		st2, e2 = second()
+		t2End = time.Now()
+		cw.Wait()
+		overlapped := t2Start.Before(t1End) && t1Start.Before(t2End)
+		rep.Eval(overlapped, fmt.Sprintf("overlap|%d", r))
+		rep.Class("overlap:" + kind)
+		if overlapped {
+			rep.Class("overlap:calls-overlapped-in-time")
+		}
+		_, _ = e1, e2
+		// Which URL the list has now depends on which set_url calls were
+		// accepted; ask the server.
+		if _, body, gerr := in.API("GET", "/control/filtering/status", nil); gerr == nil {
+			if strings.Contains(string(body), ls.URL(other)) {
+				cur = other
+			}
+		}
+		rep.Event(fmt.Sprintf("overlap-status:%d/%d", st1, st2))
+		// Quiescent: the stored files must each be one complete version.
+		c14ValidateDir(rep, dir, "after-overlapping-downloads")
+	}
+	term := func(x *sysInst) {
+		x.signalTarget(syscall.SIGTERM)
+		select {
+		case <-x.done:
+		case <-time.After(30 * time.Second):
+			x.Kill()
+		}
+	}
+	checkTrace := func(tr string) {
+		ck, cerr := c14CheckTrace(rep, dir, tr)
+		if cerr != nil {
+			rep.Inconcl("overlap phase: reading strace log: " + cerr.Error())
+
+			return
+		}
+		rep.EventN("crash_points_evaluated", ck.events)
+		rep.EvalN(ck.events)
+		rep.EventN("overlap_renames_onto_filter", ck.renamesOnto["filter"])
+	}
+	stop.Store(true)
+	wg.Wait()
+	term(in)
+	checkTrace(trace)
+	// Admin calls are serialised by the program itself, so the downloads above
+	// overlap only as calls.  The periodic background refresh is not: it runs
+	// five seconds after the start for every list whose file is older than
+	// the update interval.  Age the file, restart, and save the list with
+	// another URL while the background download of the old URL trickles in.
+	bgRounds := verifkit.Pick(2, 8)
+	for r := 0; r < bgRounds; r++ {
+		other := pathB
+		if cur == pathB {
+			other = pathA
+		}
+		fs, _ := filepath.Glob(filepath.Join(dir, "data", "filters", "*.txt"))
+		old := time.Now().Add(-72 * time.Hour)
+		for _, f := range fs {
+			_ = os.Chtimes(f, old, old)
+		}
+		n1, n2 := 3000+rng.Intn(20000), 3000+rng.Intn(20000)
+		// ~2 s of trickling for the background download.
+		ls.SetSlow(cur, c14FilterContent(7501+r*2, n1), 40, 50*time.Millisecond)
+		if r%2 == 0 {
+			ls.Set(other, c14FilterContent(7502+r*2, n2))
+		} else {
+			ls.SetSlow(other, c14FilterContent(7502+r*2, n2), 10, 30*time.Millisecond)
+		}
+		hits0 := ls.HitsFor(cur)
+		servedAtStart := ls.SlowServed.Load()
+		bgTrace := filepath.Join(os.Getenv("VERIF_SCRATCH"), fmt.Sprintf("c14ov-bg%d.strace", r))
+		bopts := opts
+		bopts.Wrapper = append([]string{}, opts.Wrapper...)
+		for i, a := range bopts.Wrapper {
+			if a == trace {
+				bopts.Wrapper[i] = bgTrace
+			}
+		}
+		in2, rerr := sysRestart(in, bopts)
+		if rerr != nil {
+			rep.Inconcl("overlap phase: restart: " + rerr.Error())
+
+			return
+		}
+		in = in2
+		stop.Store(false)
+		wg.Add(1)
+		go c14Reader(rep, dir, &stop, &wg)
+		started := false
+		for w := 0; w < 1500; w++ {
+			if ls.HitsFor(cur) > hits0 {
+				started = true
+
+				break
+			}
+			time.Sleep(10 * time.Millisecond)
+		}
+		rep.Eval(started, fmt.Sprintf("overlap-bg|%d", r))
+		if started {
+			rep.Class("overlap:background-refresh-started")
+			time.Sleep(time.Duration(100+rng.Intn(600)) * time.Millisecond)
+			inFlight := ls.SlowServed.Load() == servedAtStart
+			st, _, aerr := in.API("POST", "/control/filtering/set_url", map[string]any{"url": ls.URL(cur), "whitelist": false,
+				"data": map[string]any{"name": "ov", "url": ls.URL(other), "enabled": true}})
+			if aerr == nil && st == 200 {
+				if inFlight {
+					rep.Class("overlap:set_url-during-background-download")
+				}
+				cur = other
+			}
+			// Let the background download finish.
+			time.Sleep(2500 * time.Millisecond)
+		}
+		c14ValidateDir(rep, dir, "after-background-refresh-overlap")
+		stop.Store(true)
+		wg.Wait()
+		term(in)
+		checkTrace(bgTrace)
+		c14ValidateDir(rep, dir, "after-background-refresh-overlap-shutdown")
+	}
+	if rep.ClassCount("overlap:set_url-during-background-download") == 0 {
+		rep.Inconcl("overlap phase: no set_url call landed inside a background download")
+	}
+	rep.EventN("overlap_slow_transfers_completed", int(ls.SlowServed.Load()))
+	if rep.ClassCount("overlap:calls-overlapped-in-time") < rounds/2 {
+		rep.Inconcl(fmt.Sprintf("overlap phase: only %d of %d rounds had overlapping calls", rep.ClassCount("overlap:calls-overlapped-in-time"), rounds))
+	}
+	c14ValidateDir(rep, dir, "after-overlap-phase-shutdown")
+}
+
+// c14Large stores list bodies beyond the sizes of the traced storm (17 MiB and
+// more): the stored file must be the complete list.
+func c14Large(rep *verifkit.Report, up *sysUpstream, ls *sysListServer) {
+	opts := sysConfOpts{UpstreamPort: up.Port, ExtraTop: c14DHCPConf}
+	in, err := sysStart("", opts)
+	if err != nil {
+		rep.Inconcl("large-body phase start: " + err.Error())
+
+		return
+	}
+	defer os.RemoveAll(in.Dir)
+	defer in.Kill()
+	// ~52 bytes per rule.
+	sizes := []int{17}
+	if verifkit.Tier() == "thorough" {
+		sizes = []int{17, 33, 66}
+	}
+	for i, mib := range sizes {
+		nRules := mib << 20 / 52
+		content := c14FilterContent(9000+i, nRules)
+		path := fmt.Sprintf("/large-%d.txt", mib)
+		ls.Set(path, content)
+		st, b, aerr := in.APITimeout("POST", "/control/filtering/add_url", map[string]any{"name": "large", "url": ls.URL(path), "whitelist": i%2 == 1}, 5*time.Minute)
+		rep.Eval(true, fmt.Sprintf("large|%d", mib))
+		rep.Class(fmt.Sprintf("large-body:%dMiB", len(content)>>20))
+		if aerr != nil || st != 200 {
+			// Refusing a list is not a torn file; the files are checked below.
+			rep.Event(fmt.Sprintf("large-body-refused:%d", st))
+			_ = b
+		}
+		c14ValidateDir(rep, in.Dir, fmt.Sprintf("after-storing-%dMiB-list", mib))
+		fs, _ := filepath.Glob(filepath.Join(in.Dir, "data", "filters", "*.txt"))
+		stored := false
+		for _, f := range fs {
+			if fi, serr := os.Stat(f); serr == nil && fi.Size() >= int64(len(content))*9/10 {
+				stored = true
+			}
+		}
+		if stored {
+			rep.Class("large-body:stored-completely")
+		}
+	}
+	if rep.ClassCount("large-body:stored-completely") == 0 {
+		rep.Inconcl("large-body phase: no large list was stored")
+	}
 }
